@@ -687,8 +687,10 @@ def generate_document(spec):
         if spec.get("table"):
             from odfdo import Table
 
-            t = Table("Tab1", 3, 2)
-            t.set_values([["a", "b", "c"], [1, 2, 3], [], []])
+            if spec.get("empty_table"):
+                body.append(Table("Tab0", 2, 2))  # a table that exports to nothing, before the other one
+            t = Table("Tab1", 4, 4)  # trailing empty cells, rows and a surplus column: what a strip would remove
+            t.set_values([["a", "b", "c"], [1, 2, 3]])
             body.append(t)
         if spec.get("tracked"):
             from odfdo import Element
@@ -699,27 +701,7 @@ def generate_document(spec):
                     '<text:tracked-changes>'
                     '<text:changed-region xml:id="ct1" text:id="ct1"><text:deletion><office:change-info><dc:creator>vf</dc:creator>'
                     '<dc:date>2020-01-01T00:00:00</dc:date></office:change-info>'
-                    '<text:h text:outline-level="1">gone <text:span>styled</text:span> tail<text:s/>end</text:h><text:p>gone too</text:p>'
-                    '</text:deletion></text:changed-region>'
-                    '<text:changed-region xml:id="ct2" text:id="ct2"><text:insertion><office:change-info><dc:creator>vf</dc:creator>'
-                    '<dc:date>2020-01-02T00:00:00</dc:date></office:change-info></text:insertion></text:changed-region>'
-                    '</text:tracked-changes>'
-                ),
-                position=0,
-            )
-            body.append(Element.from_tag('<text:p>before<text:change text:change-id="ct1"/> kept <text:change-start text:change-id="ct2"/>new</text:p>'))
-            body.append(Element.from_tag('<text:h text:outline-level="2">new <text:span>head</text:span> line</text:h>'))
-            body.append(Element.from_tag('<text:p>still new<text:change-end text:change-id="ct2"/> after</text:p>'))
-        if spec.get("tracked"):
-            from odfdo import Element
-
-            # one deletion holding a heading with inline children, one insertion spanning a heading and a paragraph
-            body.insert(
-                Element.from_tag(
-                    '<text:tracked-changes>'
-                    '<text:changed-region xml:id="ct1" text:id="ct1"><text:deletion><office:change-info><dc:creator>vf</dc:creator>'
-                    '<dc:date>2020-01-01T00:00:00</dc:date></office:change-info>'
-                    '<text:h text:outline-level="1">gone <text:span>styled</text:span> tail<text:s/>end</text:h><text:p>gone too</text:p>'
+                    '<text:h text:outline-level="1">gone <text:span>styled</text:span> tail<text:s/>end</text:h><text:p>gone <text:reference-mark text:name="dr1"/>too<text:reference-mark-start text:name="dr2"/> far<text:reference-mark-end text:name="dr2"/><text:bookmark text:name="db1"/><text:change text:change-id="ct2"/></text:p>'
                     '</text:deletion></text:changed-region>'
                     '<text:changed-region xml:id="ct2" text:id="ct2"><text:insertion><office:change-info><dc:creator>vf</dc:creator>'
                     '<dc:date>2020-01-02T00:00:00</dc:date></office:change-info></text:insertion></text:changed-region>'
